@@ -183,6 +183,9 @@ type Config struct {
 	ReplayArity []int32 // optional, same length: arity recorded with each decision
 	MaxSteps    int
 	NumCPU      int
+	// MaxProcs is what runtime.GOMAXPROCS(0) reports when the run starts: 0 means NumCPU; it differs from NumCPU
+	// under a GOMAXPROCS environment variable or (Go >= 1.25) a container CPU quota
+	MaxProcs int
 	MapMode     int // 0 sorted, 1 reversed, 2 rotate (decision), 3 shuffle (decisions)
 	FS          FS
 	Tap         func(site string, v interface{})
@@ -861,10 +864,24 @@ func NumCPU() int {
 	return S.cfg.NumCPU
 }
 
-// GOMAXPROCS is a recorded no-op.
+// GOMAXPROCS is the simulated runtime.GOMAXPROCS: it reports the current setting (which need not equal
+// NumCPU, see Config.MaxProcs) and changes it when n > 0. The simulator runs one goroutine at a time
+// whatever the value; it matters to code that sizes worker pools or buffers from it.
 //
 //go:norace
-func GOMAXPROCS(n int) int { return NumCPU() }
+func GOMAXPROCS(n int) int {
+	if S == nil {
+		return implicitConfig().NumCPU
+	}
+	prev := S.cfg.MaxProcs
+	if prev <= 0 {
+		prev = S.cfg.NumCPU
+	}
+	if n > 0 {
+		S.cfg.MaxProcs = n
+	}
+	return prev
+}
 
 func fmtBlocked(bl []Blocked) string {
 	var sb strings.Builder
